@@ -6,4 +6,8 @@ Definition entry (cmd : Z) (args : list Z) : list Z :=
   if cmd =? 1 then entry_is_long args else
   if cmd =? 2 then entry_time args else
   if cmd =? 3 then entry_dec args else
+  if cmd =? 10 then entry_match args else
+  if cmd =? 11 then entry_spec args else
+  if cmd =? 12 then entry_match_repush args else
+  if cmd =? 13 then entry_events args else
   [-999].
